@@ -34,7 +34,7 @@ from dataclasses import dataclass
 from pathlib import Path
 
 from src.core.base import BaseLintContext, BaseLintRule
-from src.core.linter_utils import should_process_file
+from src.core.linter_utils import matches_ignore_patterns, should_process_file
 from src.core.types import Violation
 from src.linter_config.ignore import IgnoreDirectiveParser
 
@@ -130,6 +130,12 @@ class DRYRule(BaseLintRule):  # pylint: disable=too-many-instance-attributes
             return []
 
         self._config = self._config or config
+        if self._project_root is None:
+            self._project_root = self._get_project_root(context)
+        if matches_ignore_patterns(context.file_path, config.ignore_patterns, self._project_root):
+            # a file on the dry.ignore list is skipped: it is neither reported nor named as
+            # the other location of somebody else's duplicate
+            return []
         self._process_file(context, config)
         return []
 
@@ -206,7 +212,10 @@ class DRYRule(BaseLintRule):  # pylint: disable=too-many-instance-attributes
         """
         # Try to get from metadata (orchestrator sets this)
         if hasattr(context, "metadata") and isinstance(context.metadata, dict):
-            project_root = context.metadata.get("project_root")
+            # the orchestrator publishes the root as "_project_root"
+            project_root = context.metadata.get("_project_root") or context.metadata.get(
+                "project_root"
+            )
             if project_root:
                 return Path(project_root)
 
